@@ -151,7 +151,7 @@ class PFlow(BaseRoutine):
         gmax = system.dae.g[gmax_idx]
         logger.debug("Max. algeb mismatch %.10g on %s", gmax, system.dae.y_name[gmax_idx])
 
-        mis = max(abs(fmax), abs(gmax))
+        mis = np.maximum(abs(fmax), abs(gmax))
         system.vars_to_models()
 
         return mis
